@@ -165,3 +165,63 @@ Section IterateAgree.
     apply Exists_exists in Hx. destruct Hx as (x & Hin & ->). rewrite Forall_forall in Ht. exact (Ht _ Hin eq_refl).
   Qed.
 End IterateAgree.
+
+(* ---- a &str against the byte slice of the same bytes ---- *)
+Require Import StrSliceProofs.
+Section StrAgree.
+  Variable ro : parse_options.
+  Variable alpha : N -> bool.
+  Variable fast : bool.
+  Variable std_parse : N -> Z -> f64.
+
+  Definition utf8_rejected {A} (x : pres A) : Prop :=
+    exists l c, x = PErr (XErr (ESyntax InvalidUnicodeCodePoint l c)).
+
+  Lemma pesc_rejected {A} (x : pres A) : pesc x -> x <> PErr (XErr EFuel) -> no_panic x -> utf8_rejected x.
+  Proof.
+    destruct x as [a|[e|k]]; cbn [pesc]; intros H Hf Hp; try contradiction.
+    - destruct e as [c l cl|io|]; cbn [pesc] in H; try contradiction.
+      destruct c; cbn [pesc] in H; try contradiction. exists l, cl. reflexivity.
+    - exfalso. apply (Hp k). reflexivity.
+  Qed.
+
+  (* whatever the bytes: either the slice parse rejects them as ill-formed
+     UTF-8, or the str parse returns exactly what the slice parse returns *)
+  Theorem str_slice_agree (inp : list event) :
+    utf8_rejected (from_trait ro alpha fast std_parse SrcSlice inp) \/
+    from_trait ro alpha fast std_parse SrcStr inp = from_trait ro alpha fast std_parse SrcSlice inp.
+  Proof.
+    destruct (from_trait_str_slice ro alpha fast std_parse inp) as [E|[E|E]].
+    - left. apply pesc_rejected; [exact E| |].
+      + apply (proj1 (total_from_trait ro alpha fast std_parse SrcSlice inp)).
+      + apply (proj1 (from_trait_no_panic ro alpha fast std_parse SrcSlice inp)).
+    - exfalso. exact (proj1 (total_from_trait ro alpha fast std_parse SrcStr inp) E).
+    - right. exact E.
+  Qed.
+  Theorem str_slice_agree_datum (inp : list event) :
+    utf8_rejected (datum_from_trait ro alpha fast std_parse SrcSlice inp) \/
+    datum_from_trait ro alpha fast std_parse SrcStr inp = datum_from_trait ro alpha fast std_parse SrcSlice inp.
+  Proof.
+    destruct (datum_from_trait_str_slice ro alpha fast std_parse inp) as [E|[E|E]].
+    - left. apply pesc_rejected; [exact E| |].
+      + apply (proj2 (total_from_trait ro alpha fast std_parse SrcSlice inp)).
+      + apply (proj2 (from_trait_no_panic ro alpha fast std_parse SrcSlice inp)).
+    - exfalso. exact (proj2 (total_from_trait ro alpha fast std_parse SrcStr inp) E).
+    - right. exact E.
+  Qed.
+
+  (* in particular: whenever the slice parse accepts, the str parse returns the same value *)
+  Corollary slice_accepts_str_same (inp : list event) v :
+    from_trait ro alpha fast std_parse SrcSlice inp = POk v -> from_trait ro alpha fast std_parse SrcStr inp = POk v.
+  Proof.
+    intros E. destruct (str_slice_agree inp) as [(l & c & R)|H]; [rewrite E in R; discriminate|]. rewrite H. exact E.
+  Qed.
+
+  (* and all three sources together, for plain bytes *)
+  Corollary str_stream_agree (s : bytes) :
+    utf8_rejected (from_trait ro alpha fast std_parse SrcSlice (bytes_events s)) \/
+    same_outcome (from_trait ro alpha fast std_parse SrcStr (bytes_events s)) (from_trait ro alpha fast std_parse SrcIo (bytes_events s)).
+  Proof.
+    destruct (str_slice_agree (bytes_events s)) as [R|H]; [left; exact R|]. right. rewrite H. apply slice_stream_agree.
+  Qed.
+End StrAgree.
